@@ -21,6 +21,7 @@ import os
 import re
 import types
 import warnings
+import zlib
 
 from ..common import pmap, MachineryError
 from .. import tlaval
@@ -759,7 +760,7 @@ def sim_batch(cases, out, opts):
     if not duts:
         return
     ports = [p for d in duts for p in d.ports]
-    if opts["rtlil"]:
+    if opts["rtlil"] and (opts["rtlil"] is True or zlib.crc32(cases[0].desc.encode()) % opts["rtlil"] == 0):
         try:
             import time
             t0 = time.process_time()
@@ -1088,7 +1089,8 @@ def report(ctx, acc):
 def run(ctx):
     th = ctx.thorough
     p = params(th)
-    opts = {"rtlil": True, "asg_rounds": 32 if th else 24, "set_rounds": 4, "batch": 24, "seed": ctx.seed % 1000}
+    # rtlil: True = every batched design is converted; n = every n-th (chosen by a hash of the first layout)
+    opts = {"rtlil": True if th else 2, "asg_rounds": 32 if th else 24, "set_rounds": 4, "batch": 24, "seed": ctx.seed % 1000}
     totals = {}
     acc = {}
 
